@@ -65,17 +65,26 @@ pub fn heap_invariant(s: &Sim, i: usize, shadow: &mut Shadow, facts: &mut HeapFa
             return Err(format!("worker {i}: freed slot {slot} has refcount {rc}"));
         }
     }
-    // generation-aware shadow: a slot reachable at the previous observation and now keeps its bytes
+    // generation-aware shadow: a slot that was reachable at the previous observation, is reachable
+    // now and was not reallocated in between (hook: per-slot allocation generation) keeps its bytes
     let sh = &mut shadow[i];
     let mut next = BTreeMap::new();
     for slot in &reachable {
-        let bytes = view.bytes.get(*slot).cloned().unwrap_or_default();
+        let mut bytes = view.bytes.get(*slot).cloned().unwrap_or_default();
+        // the generation is stored in front of the bytes (8 bytes) so the shadow's type stays simple
+        let generation = view.generations.get(*slot).copied().unwrap_or(0);
+        let mut tagged = generation.to_le_bytes().to_vec();
+        tagged.append(&mut bytes);
+        let bytes = tagged;
         if let Some(prev) = sh.get(slot) {
-            if *prev != bytes {
+            if prev[..8] != bytes[..8] {
+                // reclaimed and reused between the two observations: a different binary
+                facts.reclaimed_and_reused = true;
+            } else if *prev != bytes {
                 return Err(format!(
                     "worker {i}: slot {slot} stayed reachable but its bytes changed from 0x{} to 0x{}",
-                    hex(&prev[..prev.len().min(24)]),
-                    hex(&bytes[..bytes.len().min(24)])
+                    hex(&prev[8..prev.len().min(32)]),
+                    hex(&bytes[8..bytes.len().min(32)])
                 ));
             }
         } else if !sh.is_empty() || !view.free.is_empty() {
@@ -131,6 +140,7 @@ pub fn expected_part(p: &Part) -> Option<String> {
                 _ => format!("[{a}, 8]"),
             })
         }
+        Part::TimeoutThenAwait { n, .. } => Some(mk(*n)),
         Part::FilterBin { sizes, pick } => {
             let k = sizes.len();
             let want = sizes[(*pick as usize) % k];
@@ -147,7 +157,12 @@ pub fn expected_part(p: &Part) -> Option<String> {
     }
 }
 
+fn stats_final_send(f: &mut Facts) {
+    f.final_send = true;
+}
+
 pub struct Facts {
+    pub final_send: bool,
     pub heap: HeapFacts,
     pub runs: u32,
     pub inconclusive: u32,
@@ -157,7 +172,7 @@ pub struct Facts {
 
 pub fn check(case: &Case, reg: &qrun::Registry) -> Result<Facts, (String, String)> {
     let r = gproc::render(&case.prog);
-    let mut facts = Facts { heap: HeapFacts::default(), runs: 0, inconclusive: 0, discarded: false, q1: false };
+    let mut facts = Facts { final_send: false, heap: HeapFacts::default(), runs: 0, inconclusive: 0, discarded: false, q1: false };
     let c = match catch(|| qrun::compile(&r.source, &qrun::Modules::new(), reg)) {
         Ok(Ok(c)) => c,
         Ok(Err(e)) => return Err(("generator-rejected".into(), format!("generated program does not compile: {e:?}\n{}", r.source))),
@@ -229,6 +244,17 @@ pub fn check(case: &Case, reg: &qrun::Registry) -> Result<Facts, (String, String
                 }
             }
         }
+        // a program that ends in a send: the sink must hold exactly the bytes that were sent
+        if let Some(e) = &r.final_send_expected {
+            stats_final_send(&mut facts);
+            let got: Vec<String> = run.processes.values().filter_map(|p| p.as_ref().and_then(|x| x.as_ref().ok()).map(|v| v.full())).collect();
+            if !got.iter().any(|g| g == e) {
+                return Err((
+                    "wrong-bytes".into(),
+                    format!("{desc}: the binary sent by the program's last instruction should arrive as {e}; the processes finished with {got:?}\n{}", tail(&run)),
+                ));
+            }
+        }
         if !racy {
             match &baseline {
                 None => baseline = Some((res, procs)),
@@ -269,6 +295,9 @@ pub fn run(ctx: &Ctx) -> i32 {
                 if f.q1 {
                     stats.class("quantum-1");
                 }
+                if f.final_send {
+                    stats.class("program-ends-in-a-send-of-a-fresh-binary");
+                }
                 if f.heap.reclaimed_and_reused {
                     stats.class("slot-reclaimed-and-reused-while-others-live");
                 }
@@ -286,6 +315,7 @@ pub fn run(ctx: &Ctx) -> i32 {
                         Part::MailboxLeftover { .. } => stats.class("binaries-left-in-mailbox"),
                         Part::ClosureNested { .. } => stats.class("binary-nested-in-captured-tuple-or-closure-crosses-process"),
                         Part::PrioFilter { .. } => stats.class("higher-priority-source-before-a-filtered-receive"),
+                        Part::TimeoutThenAwait { .. } => stats.class("await-timed-out-then-awaited-again-while-running"),
                         _ => {}
                     }
                 }
@@ -322,13 +352,13 @@ pub fn run(ctx: &Ctx) -> i32 {
         ctx,
         stats: &stats,
         violations,
-        rule: "binary-heavy process systems (closures capturing two heap binaries spawned with and without a heap argument, heap results awaited twice, filtered receives that skip and later take binaries, two filter sources with arrivals in between, binaries left in a mailbox, binaries built in children and concatenated in the parent, streamed chunks) x generated configurations biased to 1-instruction slices; after EVERY worker step: check_refcounts, free-list and freed-flag consistency, no reachable slot freed, no slot at count 0 that is neither freed nor queued, and bytes of every slot that stayed reachable unchanged; plus a content oracle (results must equal the bytes they were built from); evaluations = simulator runs; non-trivial = a slot reclaimed and reused while other binaries are live, or binaries crossing a spawn/message boundary; distinct by program text".into(),
+        rule: "binary-heavy process systems (closures capturing two heap binaries spawned with and without a heap argument, heap results awaited twice, filtered receives that skip and later take binaries, two filter sources with arrivals in between, binaries left in a mailbox, binaries built in children and concatenated in the parent, streamed chunks, a select on a running process that times out before the process is awaited again, a final send of a freshly built binary as the program's last instruction) x generated configurations biased to 1-instruction slices; after EVERY worker step: check_refcounts, free-list and freed-flag consistency, no reachable slot freed, no slot at count 0 that is neither freed nor queued, and bytes of every slot that stayed reachable in the same allocation generation unchanged; plus a content oracle (results must equal the bytes they were built from); evaluations = simulator runs; non-trivial = a slot reclaimed and reused while other binaries are live, or binaries crossing a spawn/message boundary; distinct by program text".into(),
         assumptions: vec![
             "invariants are read through hook H3 (verif_heap_view) at slice boundaries, the quiescent point the runtime documents".into(),
             "built with debug assertions, so the runtime's own use-after-free / underflow / completion checks surface as caught panics and are attributed to this property".into(),
             "REPL local compaction is exercised by the C11 check with the same invariant".into(),
         ],
-        required_classes: vec!["quantum-1", "two-heap-binaries-cross-one-spawn", "captures-plus-heap-argument", "finished-process-awaited-twice-with-heap-result", "two-filter-sources-with-arrivals", "slot-reclaimed-and-reused-while-others-live", "binaries-left-in-mailbox", "binary-nested-in-captured-tuple-or-closure-crosses-process", "higher-priority-source-before-a-filtered-receive"],
+        required_classes: vec!["quantum-1", "two-heap-binaries-cross-one-spawn", "captures-plus-heap-argument", "finished-process-awaited-twice-with-heap-result", "two-filter-sources-with-arrivals", "slot-reclaimed-and-reused-while-others-live", "binaries-left-in-mailbox", "binary-nested-in-captured-tuple-or-closure-crosses-process", "higher-priority-source-before-a-filtered-receive", "await-timed-out-then-awaited-again-while-running", "program-ends-in-a-send-of-a-fresh-binary"],
         started,
         technique: "proptest-generated binary-heavy process systems x schedules in the deterministic simulator; oracle = heap-accounting invariants after every worker step + byte-content model",
     })
